@@ -54,7 +54,7 @@ ARRAYS = bool(spec.get('arrays', False))
 star = build_world('55cnc')
 DUAL = KIND.startswith('dual')
 LAYERED = KIND.startswith('layered') or KIND == 'dual_layered'
-OBLIQ = KIND in ('cpl_obl', 'ctl_obl', 'layered', 'dual_layered')
+OBLIQ = KIND in ('cpl_obl', 'ctl_obl', 'layered', 'layered_sync', 'dual_layered')
 if LAYERED:
     base_world = build_world('io_simple')
     cfg = {'force_spin_sync': KIND == 'layered_sync', 'type': 'layered',
